@@ -492,6 +492,12 @@ func Sorted(ctx context.Context, args ...object.Object) object.Object {
 		}
 		var sortErr error
 		sort.SliceStable(resultItems, func(i, j int) bool {
+			// Once the function has failed (the evaluation may have been
+			// cancelled) it is not called for the comparisons that the sort
+			// still makes
+			if sortErr != nil {
+				return false
+			}
 			result, err := callFunc(ctx, fn, []object.Object{resultItems[i], resultItems[j]})
 			if err != nil {
 				sortErr = err
